@@ -287,7 +287,7 @@ def run_unit(name, repo, workdir, rlimit=DEFAULT_RLIMIT, seed=0, vacuity=True):
             continue
         from . import bounded
         iid = spec.get('id') or weave._default_id(spec['path'])
-        present = any(x['id'] == iid for x in g.items)
+        present = any(x['id'] == iid for x in g.items) or spec.get('harness_only')
         if not present:
             continue      # an optional helper this tree does not have: the obligations of its callers decide
         bd = bounded.run(iid, spec, repo, os.path.join(workdir, name))
